@@ -214,6 +214,18 @@ def F20():
     return out.startswith(('EvalError []', 'UnsafeError []')), (rc, out, err[-120:])
 
 
+def F21():
+    """C18.R12: the frame of inherited flags pushed for the children lacked a flag that was written as a short tag, so the value of
+    a more distant ancestor stayed 'inherited' below a `!merge` list and an equal explicit flag of a grandchild was elided."""
+    import awesomeyaml.yaml as ayy
+    doc = "a: !metadata{{'delete': True, 'note': 1}}\n  l: !merge\n    - !del {x: 1}\n"
+    t = ayy.dump(list(ayy.parse(doc))[0])
+    base = "a: {k: !force 1, l: [!force {u: 5}]}"
+    orig = _plain(_try(lambda: _build(base, doc)))
+    rep = _plain(_try(lambda: _build(base, t)))
+    return orig == rep, (t, orig, rep)
+
+
 def K1():
     """C12.R1 known finding: namespace cached in sys.modules across builds."""
     code = ("import awesomeyaml as ay\n"
@@ -286,7 +298,7 @@ def K6():
     return out == str(sum(range(130))), (rc, out, err[-120:])
 
 
-ALL = ['F%d' % i for i in range(1, 21)] + ['K1', 'K2', 'K3', 'K4', 'K5', 'K6', 'K7']
+ALL = ['F%d' % i for i in range(1, 22)] + ['K1', 'K2', 'K3', 'K4', 'K5', 'K6', 'K7']
 
 if __name__ == '__main__':
     if len(sys.argv) == 3 and sys.argv[1] == '--one':
